@@ -17,7 +17,7 @@ from .ref import quadtree
 
 ASSUMPTIONS = [
     "virtual Queue/Event/Process semantics modelled on CPython 3.12 multiprocessing (validated against real multiprocessing by selftest/vmp_conformance.py)",
-    "a receive timeout fires only at a moment when the pipe is empty (contention on the queue's reader lock is not modelled)",
+    "a receive timeout fires at a moment when the pipe is empty; configurations marked contended_timeouts additionally let it fire with data in the pipe while another process waits on the same queue (reader-lock contention)",
     "processes share no memory: fork is a deep copy of the Process arguments; choice points are the communication operations only",
     "worker processes running the same target are interchangeable (symmetry reduction); key soundness is checked at every state revisit",
     "termination is judged on the finite state graph: from every reachable state a state where the stage has returned must be reachable (fair scheduling)",
